@@ -53,9 +53,10 @@ def main():
             if only and only != sid:
                 continue
             meta = json.load(open(d + "meta.json"))
-            p = sh(f"git -C {REPO} apply {d}patch.diff")
-            if p.returncode != 0:
-                results.append((sid, "-", "cannot apply: " + p.stderr.strip()[:100]))
+            import seedlib
+            okk, msg = seedlib.apply_seed(d)
+            if not okk:
+                results.append((sid, "-", "cannot apply: " + msg[:100]))
                 continue
             try:
                 for cid in meta.get("checks", [meta["property"]]):
